@@ -16,7 +16,7 @@ META = {
              'get_attack_surface from scratch; a deep structural snapshot of the graph (not via shared objects) is compared '
              'before / after every query. EXHAUSTIVE: all 2-node graphs over 16 node kinds (type x viable x necessary) x all edge '
              'sets incl. self-loops x all compromised subsets (quick and thorough), all 3-node loop-free graphs (thorough; '
-             'sampled in quick); random graphs with up to 60 nodes, 2-3 attackers; non-trivial = some and-node has both a '
+             'sampled in quick); random graphs with up to 150 nodes, 1-3 attackers, defense values next to 0 and 1, and-steps with 13-129 parents whose necessary parents are exactly / all but one reached; non-trivial = some and-node has both a '
              'necessary and an unnecessary parent or some reached node has a non-traversable child; distinct = digest(case)'),
     'assumptions': ['definitions as stated in C12; defense / exist / notExist nodes are never traversable'],
     'shards': {'quick': 8, 'thorough': 16},
@@ -24,12 +24,14 @@ META = {
         'quick': {'traversable-answers': 50000, 'answer:or:True': 1000, 'answer:or:False': 1000, 'answer:and:True': 1000,
                   'answer:and:False': 1000, 'answer:defense:False': 500, 'surfaces-compared': 5000, 'incremental-steps-compared': 2000,
                   'class:and-mixed-necessary-parents': 500, 'class:batch-shares-child': 100, 'defense-surfaces-compared': 4000,
-                  'class:suppressed-defense': 100, 'snapshots-compared': 10000, 'class:other-attacker-compromised-parent': 200, 'class:labels-changed-between-queries': 100},
+                  'class:suppressed-defense': 100, 'snapshots-compared': 10000, 'class:other-attacker-compromised-parent': 200, 'class:labels-changed-between-queries': 100,
+                  'class:and-fan-in-over-12:True': 25, 'class:and-fan-in-over-12:False': 200, 'class:defense-status-next-to-0-or-1': 80},
         'thorough': {'traversable-answers': 5000000, 'surfaces-compared': 500000, 'incremental-steps-compared': 200000},
     },
 }
 RANDOM = {'quick': 1600, 'thorough': 120000}
-SECONDS = {'quick': 60, 'thorough': 600}
+SECONDS = {'quick': 300, 'thorough': 600}
+EDGE_STATUS = [1 - 1e-12, 0.9999999999, 0.999999999, 0.9999999999999999, 0.999999, 1e-12, 1e-9, 5e-324, 1e-6, 2.2250738585072014e-308]
 KINDS12 = [(t, v, n) for t in ('or', 'and', 'defense0', 'defense1') for v in (True, False) for n in (True, False)]
 
 
@@ -112,6 +114,8 @@ def _check(case, res, count=True):
         want_ed = [i for i, nd in enumerate(desc['nodes']) if nd['type'] == 'defense' and 'suppress' not in nd['tags'] and nd['defense_status'] == 1.0]
         if any(nd['type'] == 'defense' and 'suppress' in nd['tags'] for nd in desc['nodes']):
             cnt('class:suppressed-defense')
+        if any(nd['type'] == 'defense' and 'suppress' not in nd['tags'] and nd['defense_status'] not in (0.0, 0.5, 1.0) for nd in desc['nodes']):
+            cnt('class:defense-status-next-to-0-or-1')
         got_ds = sorted(idx[id(x)] for x in ds)
         got_ed = sorted(idx[id(x)] for x in ed)
         if got_ds != want_ds:
@@ -157,6 +161,8 @@ def _check(case, res, count=True):
                     cnt('answer:%s:%s' % (desc['nodes'][i]['type'], want))
                     if desc['nodes'][i]['type'] == 'and':
                         ps = parents[i]
+                        if len(ps) > 12 and any(not desc['nodes'][p]['is_necessary'] and p not in comp[k] for p in ps):
+                            cnt('class:and-fan-in-over-12:%s' % want)
                         if any(desc['nodes'][p]['is_necessary'] for p in ps) and any(not desc['nodes'][p]['is_necessary'] for p in ps):
                             cnt('class:and-mixed-necessary-parents')
                         if any(p not in comp[k] and any(p in comp[j] for j in range(len(atts)) if j != k) for p in ps if desc['nodes'][p]['is_necessary']):
@@ -278,17 +284,38 @@ def run(rng, res, tier, shard, nshards):
         size = rng.choice([3, 4, 6, 10, 20, 40, 60] + ([150] if rng.random() < 0.1 else []))
         kinds = []
         tags = {}
+        edge_status = rng.random() < 0.3       # defense values next to, but not at, 0 and 1
         for i in range(size):
             t = rng.choice(['or', 'or', 'and', 'and', 'and', 'defense0', 'defense1', 'defense0.5', 'exist', 'notExist'])
+            if edge_status and t.startswith('defense') and rng.random() < 0.6:
+                t = 'defense' + repr(rng.choice(EDGE_STATUS))
             kinds.append((t, rng.random() < 0.75, rng.random() < 0.6))
             if t.startswith('defense') and rng.random() < 0.3:
                 tags[i] = rng.choice([['suppress'], ['hidden'], ['suppress', 'x'], ['suppressed']])
         p = min(0.5, 3.0 / size)
         edges = [[i, j] for i in range(size) for j in range(size) if (i != j or rng.random() < 0.05) and rng.random() < p]
+        hub = None
+        if size >= 20 and rng.random() < 0.25:
+            # an and-step with a large fan-in (13 .. size-1 parents), necessary and unnecessary ones mixed
+            hub = rng.randrange(size)
+            kinds[hub] = ('and', rng.random() < 0.9, kinds[hub][2])
+            fan = rng.choice([13, 14, 16, 20, 33, 64, 129])
+            ps = rng.sample([i for i in range(size) if i != hub], min(fan, size - 1))
+            edges = [e for e in edges if e[1] != hub] + [[i, hub] for i in ps]
+            rng.shuffle(edges)
         desc = make_desc(kinds, edges, tags)
         atts = []
         for _k in range(rng.randint(1, 3)):
             atts.append([[rng.randrange(size) for _ in range(rng.randint(1, 4))] for _ in range(rng.randint(1, 10))])
+        if hub is not None:
+            # one attacker reaches exactly the necessary parents of the hub (in 1-3 batches), another all but one
+            nec = [i for i, h in edges if h == hub and kinds[i][2]]
+            rng.shuffle(nec)
+            if nec:
+                cut = sorted(rng.sample(range(len(nec) + 1), min(2, len(nec) + 1)))
+                atts[0] = [b for b in (nec[:cut[0]], nec[cut[0]:cut[-1]], nec[cut[-1]:]) if b]
+                if len(atts) > 1:
+                    atts[1] = [nec[1:]] if len(nec) > 1 else [[]]
         case = {'desc': desc, 'attackers': atts, 'relabel': rng.randrange(1, 10 ** 6) if rng.random() < 0.3 else None}
         f = check(case, res)
         res.count('random-cases')
